@@ -5,22 +5,11 @@ from .. import pm
 from ..pm import U
 from . import common as C
 
-TECHNIQUE = "static analysis: exact shape check of the uniform split; origin analysis of every index used to write port_pressure in the balancer; pairing of the +/- quantum updates with their min/max index origins; typestate (UNIFORM -> BALANCED) of the kernel along the CFG of every caller of the balancer; single-aggregator check for per-port totals"
+TECHNIQUE = (
+    'static analysis: exact shape check of the uniform split; origin analysis of every index used to write port_pressure in the balancer; pairing of the +/- quantum updates with their min/max index origins; typestate (UNIFORM -> BALANCED) of the kernel along the CFG of every caller of the balancer; single-aggregator check for per-port totals ; ownership (aliasing-depth) analysis of the costing functions'
+)
 EXPLANATION = (
-    "R1 (exact for --fixed): average_port_pressure allocates one zero per model port and its only updates are "
-    "res[index_of(p)] += cycles / len(ports) for every p of every (cycles, ports) of the selected micro-op "
-    "list (option 0 by default) - non-negativity, support within the allowed ports, sum = total cycles and the "
-    "Hall condition then hold by construction. R1b: on every path of assign_tp_lt port_pressure and port_uops are "
-    "assigned from the same micro-op source (zero vector <-> []; average(x) <-> x; composed: C08-R1), and inside the "
-    "balancer the two are always replaced together from the same source in the same block. R2: every "
-    "store into an instruction's port_pressure inside the balancer is indexed by a value originating from "
-    "`indices` = [port_list.index(p) for p in ports] of the current micro-op (or a filter of it). R3: every update by the quantum INC "
-    "occurs as a pair -= INC / += INC on instr_ports and on differences; the decrement index originates from "
-    "max(port_sums), the increment index from min(port_sums); the residual clean-up is the only unpaired update. "
-    "R4: the per-micro-op cap differences = cycles/len(ports) is only sound on a uniformly split instruction: "
-    "assign_optimal_throughput must not be applied to a kernel it has already balanced (typestate along every "
-    "caller's CFG). R5: every per-port total that is shown or compared comes from get_throughput_sum = rounded "
-    "column sums over the lines with throughput != 0.0; no other cross-instruction summation of port_pressure."
+    "R1 (exact for --fixed): average_port_pressure allocates one zero per model port and its only updates are res[index_of(p)] += cycles / len(ports) for every p of every (cycles, ports) of the selected micro-op list (option 0 by default) - non-negativity, support within the allowed ports, sum = total cycles and the Hall condition then hold by construction. R1b: on every path of assign_tp_lt port_pressure and port_uops are assigned from the same micro-op source (zero vector <-> []; average(x) <-> x; composed: C08-R1), and inside the balancer the two are always replaced together from the same source in the same block. R2: every store into an instruction's port_pressure inside the balancer is indexed by a value originating from `indices` = [port_list.index(p) for p in ports] of the current micro-op (or a filter of it). R3: every update by the quantum INC occurs as a pair -= INC / += INC on instr_ports and on differences; the decrement index originates from max(port_sums), the increment index from min(port_sums); the residual clean-up is the only unpaired update. R4: the per-micro-op cap differences = cycles/len(ports) is only sound on a uniformly split instruction: assign_optimal_throughput must not be applied to a kernel it has already balanced (typestate along every caller's CFG). R5: every per-port total that is shown or compared comes from get_throughput_sum = rounded column sums over the lines with throughput != 0.0; no other cross-instruction summation of port_pressure. R6: the micro-op lists and pressure vectors the split is computed from are the model's own rows, handed out by reference; the ownership analysis (C18) finds no in-place mutator applied to them in any costing function - an in-place += while composing one instruction would put pressure on foreign ports for every later instruction."
 )
 NOT_DECIDED = (
     "Numeric feasibility of the optimised split beyond R2-R4 (the Hall inequalities up to 0.01 are properties "
@@ -349,6 +338,20 @@ def _r5(ctx):
         ctx.ok("R5", "no other cross-instruction summation over port_pressure in the package", s.where())
 
 
+def _r6(ctx):
+    """The micro-op lists the split is computed from are the model's own rows (handed out by reference): an in-place
+    change while costing one instruction shows up as pressure on foreign ports for every later instruction."""
+    from .c18 import effects_of, mutation_findings
+
+    ctx.rule("R6", "the micro-op lists and pressure vectors of the model are never changed in place while an instruction is costed")
+    eff = effects_of(ctx)
+    only = {q for q in eff.summ if q.startswith("ArchSemantics.")} | {
+        "MachineModel.get_load_throughput", "MachineModel.get_store_throughput", "MachineModel.average_port_pressure",
+        "MachineModel.get_instruction", "MachineModel._match_mem_entries"}
+    n = mutation_findings(ctx, eff, "R6", only_funcs=only)
+    ctx.ok("R6", "%d in-place mutation site(s) in the costing functions examined" % n, ctx.func("ArchSemantics.assign_tp_lt").where())
+
+
 def run(ctx):
     C.require_locals(ctx, ctx.func('ArchSemantics.assign_optimal_throughput'), ['INC', 'port_list', 'indices', 'ports', 'cycles', 'port_sums', 'instr_ports', 'differences', 'max_port_idx', 'min_port_idx', 'kernel', 'instruction_form', 'idx', 'k_tmp'])
     C.require_locals(ctx, ctx.func('ArchSemantics.assign_tp_lt'), ['instruction_form', 'port_number', 'flags'])
@@ -360,3 +363,4 @@ def run(ctx):
     _r3(ctx, P)
     _r4(ctx)
     _r5(ctx)
+    _r6(ctx)
